@@ -4,7 +4,7 @@
    (acked_keys, src_keys, monitors). *)
 From Coq Require Import Permutation.
 From Verif Require Import Funnel.Check Funnel.Findings Funnel.BatchProofs Funnel.LedgerProofs
-     Funnel.TaskProofs Funnel.WorkerProofs Funnel.Theorems08 Funnel.DestProofs Funnel.ProcProofs Funnel.AlignProofs Funnel.FuelProofs Funnel.MonitorProofs.
+     Funnel.TaskProofs Funnel.WorkerProofs Funnel.Theorems08 Funnel.DestProofs Funnel.ProcProofs Funnel.AlignProofs Funnel.FuelProofs Funnel.MonitorProofs Funnel.ComposeProofs.
 
 Theorem C08_batch_wf_preserved b h : WF b h ->
   (forall i j b', batch_ack b i j = Ok b' -> WF b' h) /\
@@ -23,10 +23,10 @@ Print Assumptions C08_batch_wf_preserved.
    findTo search and the stretch-wise copy) puts record j of recs on the (i+j)-th ACTIVE record and
    touches no other record, status, position or run; Filter/Retry/Ack over the active indices
    [k, k+n) change the flag of exactly those active records.
-   GAP: the composition over the end->start loop of ProcessorTask.Do / DestinationTask.Do ("an
+   The composition over the end->start loop of ProcessorTask.Do / DestinationTask.Do ("an
    operation at a higher index never changes which record a lower active index resolves to") is
-   not stated as a theorem: it is false on the unchanged tree when a Nack overwrites the Filter flag
-   of a filtered piece (finding below); outside of that shape it is covered by the correspondence. *)
+   false on the shipped tree when a Nack overwrites the Filter flag of a filtered piece (finding
+   below); for the repaired tree it is C08_mark_results_aligned_composition* further down. *)
 Theorem C08_mark_results_aligned_partial b i recs b' :
   lens2 b -> filterCount b = count_filter (statuses b) -> i + length recs <= nf (statuses b) ->
   batch_set_records b i recs = Ok b' ->
@@ -48,6 +48,70 @@ Theorem C08_mark_flags_aligned_partial a fl n st k st' :
                exists s, nth_error st x = Some s /\ nth_error st' x = Some (fl, snd s)).
 Proof. exact (set_flags_aligned a fl n st k st'). Qed.
 Print Assumptions C08_mark_flags_aligned_partial.
+
+(* mark_results_aligned, THE COMPOSITION (repaired tree: fx_unfilter = true), ProcessorTask.Do.
+   The results of a reply are applied from the last to the first, each through an index into the
+   records that are active at that moment.  gs = the groups of the results with index in [i, j)
+   (any suffix of the reply; every kind of result: single, filter, error with its spreading over a
+   split run, multi(0), multi(1), multi(n) with its insertion of n-1 records, nil/retry).  After
+   they were applied everything before the i-th active record is as the plugin was given it -
+   records and positions identical, every status identical or (not filtered) nacked by a sibling's
+   error - filterCount is exact again, and every active index k < i resolves to the same physical
+   record, unchanged.  So result k, when its turn comes, is applied to the k-th active record of the
+   batch the plugin saw; what one operation does there is the two _partial theorems above. *)
+Theorem C08_mark_results_aligned_composition fx gs i j b h b' h' :
+  fx_unfilter fx = true -> chain gs i j ->
+  WF b h -> filterCount b = count_filter (statuses b) -> j <= nf (statuses b) ->
+  mark_groups fx b h (rev gs) = Ok (b', h') ->
+  pre_same (cut (statuses b) i) b b' /\
+  filterCount b' = count_filter (statuses b') /\
+  (forall k x, k < i -> nth_error (idx_active (statuses b) 0) k = Some x ->
+     nth_error (idx_active (statuses b') 0) k = Some x /\
+     nth_error (records b') x = nth_error (records b) x /\
+     nth_error (positions b') x = nth_error (positions b) x /\
+     exists s s', nth_error (statuses b) x = Some s /\ nth_error (statuses b') x = Some s' /\ srel s s').
+Proof. exact (mark_groups_composed fx gs i j b h b' h'). Qed.
+Print Assumptions C08_mark_results_aligned_composition.
+
+(* the same on ProcessorTask.Do itself: cut the groups of the padded reply anywhere; Do = the
+   groups right of the cut, then the groups left of it, and the first half leaves every record the
+   second half will address where and as it was *)
+Theorem C08_mark_results_aligned_composition_proc_do fx b h nIn out b' h' gs_lo gs_hi :
+  fx_unfilter fx = true ->
+  WF b h -> filterCount b = count_filter (statuses b) -> nIn <= nf (statuses b) -> length out <= nIn ->
+  groups (out ++ repeat PNil (nIn - length out)) 0 = gs_lo ++ gs_hi ->
+  proc_do fx b h nIn out = Ok (b', h') ->
+  exists m b1 h1,
+    chain gs_lo 0 m /\ chain gs_hi m nIn /\
+    mark_groups fx b h (rev gs_hi) = Ok (b1, h1) /\ mark_groups fx b1 h1 (rev gs_lo) = Ok (b', h') /\
+    pre_same (cut (statuses b) m) b b1 /\
+    (forall k x, k < m -> nth_error (idx_active (statuses b) 0) k = Some x ->
+       nth_error (idx_active (statuses b1) 0) k = Some x /\
+       nth_error (records b1) x = nth_error (records b) x /\
+       nth_error (positions b1) x = nth_error (positions b) x /\
+       exists s s', nth_error (statuses b) x = Some s /\ nth_error (statuses b1) x = Some s' /\ srel s s').
+Proof. exact (proc_do_composed fx b h nIn out b' h' gs_lo gs_hi). Qed.
+Print Assumptions C08_mark_results_aligned_composition_proc_do.
+
+(* DestinationTask.Do, over ALL the ack chunks of one Do: no record, no position changes, no status
+   changes its filter flag (a status is left alone or a not-filtered one is nacked), so the
+   active-record indices the chunks are counted in never move between chunks *)
+Theorem C08_mark_results_aligned_composition_dest c d ps n :
+  fx_unfilter (c_fix c) = true -> forall b ackCount w b' x w',
+  filterCount b = count_filter (statuses b) ->
+  dest_loop c d b ps ackCount n w = (Ok (b', x), w') ->
+  records b' = records b /\ positions b' = positions b /\ Forall2 srel (statuses b) (statuses b') /\
+  idx_active (statuses b') 0 = idx_active (statuses b) 0 /\ filterCount b' = count_filter (statuses b').
+Proof. exact (dest_loop_composed c d ps n). Qed.
+Print Assumptions C08_mark_results_aligned_composition_dest.
+
+(* and within a chunk received after `from` acks, errored ack i nacks the (from+i)-th active record *)
+Theorem C08_dest_ack_lands from l b b' :
+  filterCount b = count_filter (statuses b) -> dest_mark true b from l = Ok b' ->
+  forall i p e x, In (i, (p, Some e)) l -> nth_error (idx_active (statuses b) 0) (from + i) = Some x ->
+    exists s', nth_error (statuses b') x = Some s' /\ fst s' = FNack.
+Proof. exact (dest_mark_lands from l b b'). Qed.
+Print Assumptions C08_dest_ack_lands.
 
 Theorem C08_subbatches_partition st : contiguous (spans st 0 (S (length st))) 0 (length st).
 Proof. exact (subbatches_partition st). Qed.
